@@ -32,6 +32,18 @@
 (* DerivedLookup "fitting"           as built: disable_derived looks the   *)
 (*                                   name up among the fitting parameters  *)
 (*               "derived"           repaired                              *)
+(* ObsMerge      "always"            the code: compile_params runs over    *)
+(*                                   the model's parameters, then over the *)
+(*                                   observation's, and both passes fill   *)
+(*                                   the name -> prior table read by the   *)
+(*                                   views                                 *)
+(*               "if_table_nonempty" expected-counterexample variant: the  *)
+(*                                   second pass's priors reach the table  *)
+(*                                   only if the first pass (or set_prior) *)
+(*                                   left something in it                  *)
+(* Preset(S) is a macro step: enable_fit / disable_fit called for every    *)
+(* parameter so that exactly S is fitted (any subset: only observation     *)
+(* parameters, none at all, ...); used by the export / simulation specs.   *)
 (***************************************************************************)
 EXTENDS Integers, Sequences, FiniteSets, TLC, Json
 
@@ -47,7 +59,8 @@ CONSTANTS Params,        \* sequence of fitting-parameter names, declaration ord
           Factors,       \* set of <<f0, f1>> exponent pairs (factors 10^f0, 10^f1)
           UserPriors,    \* set of prior records [kind, a, b]
           K,             \* exponents written by UpdateModel
-          PriorTable, ViewSpace, DerivedLookup,
+          ObsParams,     \* the fitting parameters that belong to the observation (declared after the model's)
+          PriorTable, ViewSpace, DerivedLookup, ObsMerge,
           Record         \* keep the history variable (binding C) or not (exhaustive runs)
 
 VARIABLES setting, derivedOn, userPrior, priorTab, compiled, compiledDer, value, err, hist
@@ -115,6 +128,14 @@ SetBoundary(p, b) == SetSetting(p, [setting[p] EXCEPT !.lo = b[1], !.hi = b[2]],
 SetFactorBoundary(p, f) == SetSetting(p, [setting[p] EXCEPT !.lo = value[p] + f[1], !.hi = value[p] + f[2]],
                                       [op |-> "set_factor_boundary", p |-> p, x |-> f])
 
+\* enable_fit / disable_fit for every parameter: exactly S is fitted afterwards
+Preset(S) ==
+        /\ err' = FALSE
+        /\ setting' = [p \in PSet |-> [setting[p] EXCEPT !.fit = (p \in S)]]
+        /\ UNCHANGED <<derivedOn, userPrior, priorTab, compiled, compiledDer, value>>
+        /\ Log([op |-> "preset", on |-> SelectSeq(Params, LAMBDA p : p \in S)])
+PresetCall == \E S \in SUBSET PSet : Preset(S)
+
 SetPrior(p, pr) ==
         /\ err' = FALSE
         /\ userPrior' = [userPrior EXCEPT ![p] = pr]
@@ -141,7 +162,10 @@ Compile ==
         /\ UNCHANGED <<setting, derivedOn, userPrior, value>>
         /\ LET base == IF PriorTable = "persist_all" THEN priorTab ELSE userPrior
                tab  == TableFrom(base, setting)
-           IN  /\ priorTab' = tab
+               \* two passes (model, then observation); tabM is the table after the first pass
+               tabM == [p \in PSet |-> IF p \in ObsParams THEN base[p] ELSE tab[p]]
+               lost == ObsMerge = "if_table_nonempty" /\ \A p \in PSet : tabM[p] = None
+           IN  /\ priorTab' = IF lost THEN tabM ELSE tab
                /\ compiled' = CompiledFrom(tab, setting)
         /\ compiledDer' = DerivedFrom(derivedOn)
         /\ Log([op |-> "compile_params"])
@@ -211,6 +235,10 @@ CompileTakesEnabled == [][Compile => {compiled'[i].name : i \in 1..Len(compiled'
 
 \* name, value, boundary and prior of a fitted parameter are reported in one space
 SpacesAgree == \A i \in 1..Len(compiled) : ViewSp(compiled[i]) = PMode(compiled[i].prior)
+\* fit_names / fit_values / fit_boundaries look the prior up by name in the table: every compiled entry is there,
+\* with the prior that update_model and the samplers use (whatever subset is fitted: model parameters only,
+\* observation parameters only, with or without a set_prior)
+ViewsReadable == \A i \in 1..Len(compiled) : priorTab[compiled[i].name] = compiled[i].prior
 \* default priors are those of the mode and bounds at the compile (set_prior entries excepted)
 DefaultsFollowSettings == [][Compile => \A i \in 1..Len(compiled') :
                                LET c == compiled'[i] IN
